@@ -102,6 +102,9 @@ type tcpConnMetrics struct {
 	clientAddr net.Addr
 	clientInfo ipinfo.IPInfo
 	accessKey  string
+	// Whether AddAuthenticated was called. The access key ID may be empty, so it
+	// cannot be used to tell authenticated connections apart.
+	authenticated bool
 }
 
 var _ service.TCPConnMetrics = (*tcpConnMetrics)(nil)
@@ -119,6 +122,7 @@ func newTCPConnMetrics(tcpServiceMetrics *tcpServiceMetrics, tunnelTimeMetrics *
 
 func (cm *tcpConnMetrics) AddAuthenticated(accessKey string) {
 	cm.accessKey = accessKey
+	cm.authenticated = true
 	ipKey, err := toIPKey(cm.clientAddr, accessKey)
 	if err == nil {
 		cm.tunnelTimeMetrics.startConnection(*ipKey)
@@ -131,7 +135,7 @@ func (cm *tcpConnMetrics) AddClosed(status string, data metrics.ProxyMetrics, du
 	cm.tcpServiceMetrics.closeConnection(status, duration, cm.accessKey, cm.clientInfo)
 	// We only track authenticated TCP connections, so ignore unauthenticated closed connections
 	// when calculating tunneltime. See https://github.com/Jigsaw-Code/outline-server/issues/1590.
-	if cm.accessKey != "" {
+	if cm.authenticated {
 		ipKey, err := toIPKey(cm.clientAddr, cm.accessKey)
 		if err == nil {
 			cm.tunnelTimeMetrics.stopConnection(*ipKey)
